@@ -575,6 +575,148 @@ def _hash(o):
 EXTRA.append(_hash)
 
 
+
+# ---------------------------------------------------------------------------
+# verify.py / recursiveloader.py / util.py (C01, C02, C06, C07, C16)
+# ---------------------------------------------------------------------------
+
+def _u(node):
+    return ast.unparse(node)
+
+
+def _tree(o):
+    ver = _src('gemato/verify.py')
+    rl = _src('gemato/recursiveloader.py')
+    ut = _src('gemato/util.py')
+
+    def compat_tags():
+        f = find_func(ver, 'verify_entry_compatibility')
+        for n in ast.walk(f):
+            if isinstance(n, ast.Assign) and isinstance(n.targets[0], ast.Name) and n.targets[0].id == 'COMPATIBLE_TAGS':
+                return llist(lstr(x) for x in ast.literal_eval(n.value))
+        raise KeyError('COMPATIBLE_TAGS')
+    o.item('compatibleTags', 'List (List Nat)', compat_tags, '[]')
+
+    def compat_stages():
+        f = find_func(ver, 'verify_entry_compatibility')
+        return llist(lstr(_u(n.test)) for n in ast.walk(f) if isinstance(n, ast.If))
+    o.item('compatConditions', 'List (List Nat)', compat_stages, '[]')
+
+    def open_errors():
+        f = find_func(ver, 'get_file_metadata')
+        tr = [n for n in f.body if isinstance(n, ast.Try)][0]
+        hs = []
+        for h in tr.handlers:
+            hs.append(_u(h.type))
+        errnos = []
+        for n in ast.walk(tr):
+            if isinstance(n, ast.Compare) and isinstance(n.ops[0], ast.In) and _u(n.left) == 'err.errno':
+                errnos = [_u(x) for x in n.comparators[0].elts]
+        reraise = any(isinstance(n, ast.Raise) and n.exc is None for n in ast.walk(tr))
+        return hs, errnos, reraise
+    o.item('openAbsentClass', 'List (List Nat)', lambda: llist(lstr(x) for x in open_errors()[0]), '[]')
+    o.item('openPresentErrnos', 'List (List Nat)', lambda: llist(lstr(x) for x in open_errors()[1]), '[]')
+    o.item('openReraises', 'Bool', lambda: 'true' if open_errors()[2] else 'false', 'false')
+
+    def verify_stages():
+        f = find_func(ver, 'verify_path')
+        conds = []
+        for n in ast.walk(f):
+            if isinstance(n, ast.If):
+                conds.append((n.lineno, _u(n.test)))
+        conds.sort()
+        return llist(lstr(c) for _l, c in conds)
+    o.item('verifyPathConditions', 'List (List Nat)', verify_stages, '[]')
+
+    def update_stages():
+        f = find_func(ver, 'update_entry_for_path')
+        conds = []
+        for n in ast.walk(f):
+            if isinstance(n, ast.If):
+                conds.append((n.lineno, _u(n.test)))
+        conds.sort()
+        return llist(lstr(c) for _l, c in conds)
+    o.item('updateEntryConditions', 'List (List Nat)', update_stages, '[]')
+
+    o.item('pathStartsWithBody', 'List Nat', lambda: lstr(_u(find_func(ut, 'path_starts_with').body[-1])), '[]')
+    o.item('pathInsideDirBody', 'List Nat', lambda: lstr(_u(find_func(ut, 'path_inside_dir').body[-1])), '[]')
+    o.item('poolMapBody', 'List Nat', lambda: lstr(_u(find_func(ut, 'map', 'MultiprocessingPoolWrapper').body[-1])), '[]')
+
+    def defaults(fn, cls='ManifestRecursiveLoader'):
+        f = find_func(rl, fn, cls)
+        names = [a.arg for a in f.args.args]
+        ds = f.args.defaults
+        out = []
+        for a, d in zip(names[len(names) - len(ds):], ds):
+            out.append(f'({lstr(a)}, {lstr(_u(d))})')
+        return llist(out)
+    for fn in ('load_manifests_for_path', 'get_file_entry_dict', 'assert_directory_verifies', 'update_entries_for_directory',
+               'load_unregistered_manifests', 'get_deduplicated_file_entry_dict_for_update', '__init__'):
+        o.item('defaults_' + fn.strip('_'), 'List (List Nat × List Nat)', (lambda fn=fn: defaults(fn)), '[]')
+
+    def walk_calls():
+        out = []
+        for n in ast.walk(rl):
+            if isinstance(n, ast.Call) and _u(n.func) == 'os.walk':
+                out.append((n.lineno, _u(n)))
+        out.sort()
+        return llist(lstr(x) for _l, x in out)
+    o.item('walkCalls', 'List (List Nat)', walk_calls, '[]')
+
+    def verify_aggregate():
+        f = find_func(rl, 'assert_directory_verifies', 'ManifestRecursiveLoader')
+        for n in ast.walk(f):
+            if isinstance(n, ast.Assign) and _u(n.targets[0]) == 'ret' and 'imap_unordered' in _u(n.value):
+                return lstr(' '.join(_u(n.value).split()))
+        raise KeyError('ret = all(...)')
+    o.item('verifyAggregate', 'List Nat', verify_aggregate, '[]')
+
+    def verifier_call_conditions():
+        f = find_func(rl, '__call__', 'SubprocessVerifier')
+        out = [(n.lineno, _u(n.test)) for n in ast.walk(f) if isinstance(n, ast.If)]
+        out.sort()
+        return llist(lstr(c) for _l, c in out)
+    o.item('verifierConditions', 'List (List Nat)', verifier_call_conditions, '[]')
+
+    def verify_one():
+        f = find_func(rl, '_verify_one_file', 'SubprocessVerifier')
+        return llist(lstr(x.strip()) for st in f.body for x in _u(st).split('\n'))
+    o.item('verifyOneFile', 'List (List Nat)', verify_one, '[]')
+
+    def walk_dir_conditions():
+        f = find_func(rl, 'assert_directory_verifies', 'ManifestRecursiveLoader')
+        out = [(n.lineno, _u(n.test)) for n in ast.walk(f) if isinstance(n, ast.If)]
+        out.sort()
+        return llist(lstr(c) for _l, c in out)
+    o.item('walkDirConditions', 'List (List Nat)', walk_dir_conditions, '[]')
+
+    def verify_and_load():
+        f = find_func(rl, 'verify_and_load', 'ManifestLoader')
+        return llist(lstr(x.strip()) for st in f.body[1:] for x in _u(st).split('\n'))
+    o.item('verifyAndLoad', 'List (List Nat)', verify_and_load, '[]')
+
+    def lookup_loads():
+        # every lookup API loads the chain with verification on (no verify=False argument)
+        out = []
+        for fn in ('find_path_entry', 'find_dist_entry', 'find_timestamp', 'update_entry_for_path'):
+            f = find_func(rl, fn, 'ManifestRecursiveLoader')
+            for n in ast.walk(f):
+                if isinstance(n, ast.Call) and _u(n.func) == 'self.load_manifests_for_path':
+                    out.append(f'({lstr(fn)}, {lstr(_u(n))})')
+        return llist(out)
+    o.item('lookupLoadCalls', 'List (List Nat × List Nat)', lookup_loads, '[]')
+
+    def entry_dict_skip():
+        f = find_func(rl, 'get_file_entry_dict', 'ManifestRecursiveLoader')
+        out = [(n.lineno, _u(n.test)) for n in ast.walk(f) if isinstance(n, (ast.If,))]
+        out.sort()
+        return llist(lstr(c) for _l, c in out)
+    o.item('entryDictConditions', 'List (List Nat)', entry_dict_skip, '[]')
+
+
+EXTRA.append(_tree)
+
+
 if __name__ == '__main__':
     errs = write_extracted()
     print(open(os.path.join(LEAN, 'Gemato', 'Extracted.lean')).read())
